@@ -120,6 +120,23 @@ def _case(i):
         # always present: one line longer than 64 KiB made of multi-byte characters (3-byte, then 4-byte)
         kind = 'long_multibyte_line'
         text = 'a' * rng.randint(0, 3) + (['한', '😀'][i]) * [30000, 23000][i] + ['\n', '\nsecond é line\n'][i]
+    aligned = None
+    if 2 <= i < 8:
+        aligned = ([12, 13, 16][(i - 2) % 3], [1, 2][(i - 2) // 3])
+    elif kind == 'long_multibyte_line' and rng.random() < 0.5:
+        aligned = (rng.choice([12, 13, 13, 16]), rng.randint(0, 4))
+    if aligned is not None:
+        # the long multi-byte line STARTS at a byte offset just below a power of two (after short lines) and is longer
+        # than 64 KiB: stream-level buffer boundaries (4 KiB, 8 KiB, 64 KiB) and line-level ones fall into one character
+        kind = 'aligned_long_line'
+        want_off = 2 ** aligned[0] - aligned[1]
+        pre, off = [], 0
+        while want_off - off > 0:
+            ln = min(want_off - off, rng.choice([1, 2, 17, 64, 300]))
+            pre.append('x' * (ln - 1) + '\n')
+            off += ln
+        chs = rng.choice(['한', '€', '한', '😀한', 'é한'])
+        text = ''.join(pre) + 'b' * rng.choice([0, 0, 1, 2, 65535]) + chs * (23000 // len(chs) + rng.randint(0, 3)) + rng.choice(['\n', '\nlast line without terminator', ''])
     sb = text.encode('utf-8')
     res['hist']['text:' + kind] = 1
     res['hist']['stdin_bytes'] = len(sb)
@@ -133,7 +150,7 @@ def _case(i):
     res['key'] = C.sha(text)
     cands = [p for p in PROGRAMS if len(text) >= p[3]]
     progs = rng.sample(cands, min(len(cands), 2 if len(text) > 2000 else 3))
-    if kind in ('long_multibyte_line', 'long_line'):
+    if kind in ('long_multibyte_line', 'long_line', 'aligned_long_line'):
         progs = [p for p in PROGRAMS if p[0] == rng.choice(['cat', 'cat_exit'])]
     for name, prog, fexp, _ in progs:
         want = fexp(text)
